@@ -46,6 +46,7 @@ fn run_case(rep: &mut Report, args: &Args, cs: u64, sink_kind: &str) {
         Unix { rx_thread: std::thread::JoinHandle<Vec<Vec<u8>>>, stop: Arc<std::sync::atomic::AtomicBool>, dir: std::path::PathBuf, fd_marker: u64 },
         Udp { fd_marker: u64, _recv: std::net::UdpSocket },
     }
+    let mut faulty = false;
     let (client, obs): (StatsdClient, Obs) = match sink_kind {
         "spy" => {
             let (rx, sink) = if default_cap { BufferedSpyMetricSink::new() } else { BufferedSpyMetricSink::with_capacity(None, Some(cap)) };
@@ -95,6 +96,14 @@ fn run_case(rep: &mut Report, args: &Args, cs: u64, sink_kind: &str) {
             let sock = std::net::UdpSocket::bind("127.0.0.1:0").unwrap();
             let marker = interpose::mark();
             let sink = if default_cap { BufferedUdpMetricSink::from(addr, sock).unwrap() } else { BufferedUdpMetricSink::with_capacity(addr, sock, cap).unwrap() };
+            // every third UDP run: the socket refuses a fifth of the datagrams (EAGAIN / ENOBUFS / ECONNREFUSED, scripted
+            // at the interposed sendto) while the threads emit and flush - what was acknowledged must still come out
+            // exactly once, what was refused never, and a flush that says Ok has written the caller's metrics
+            if cs % 3 == 0 {
+                faulty = true;
+                interpose::set_random(200, vec![11, 105, 111], cs);
+                rep.obs("stress_runs_with_a_socket_that_refuses_datagrams", 1);
+            }
             (StatsdClient::from_sink("", sink), Obs::Udp { fd_marker: marker, _recv: recv })
         }
     };
@@ -197,6 +206,15 @@ fn run_case(rep: &mut Report, args: &Args, cs: u64, sink_kind: &str) {
                 per_thread_flush.push(fp);
             }
             Err(_) => panic_msg = Some("thread died".into()),
+        }
+    }
+    if faulty {
+        // the socket is healthy again; the caller flushes until it is told Ok (the drop's own write then has nothing to lose)
+        interpose::set_random(0, vec![], 0);
+        for _ in 0..5 {
+            if client.flush().is_ok() {
+                break;
+            }
         }
     }
     // three runs in four end with the drop alone: a dropped sink has written what it accepted, flushed or not
